@@ -169,6 +169,12 @@ class Grid2D(GridObject):
         u_ind = np.any(selected_centroids, axis=0)
         v_ind = np.any(selected_centroids, axis=1)
 
+        if not inverse:
+            # The sub-grid spans from the first to the last selected column and row
+            for ind in (u_ind, v_ind):
+                if np.any(ind):
+                    ind[np.argmax(ind) : len(ind) - np.argmax(ind[::-1])] = True
+
         indices = np.kron(v_ind, u_ind).flatten()
 
         if not np.any(indices):
